@@ -202,6 +202,30 @@ def rule_A7(ctx):
                 r.ok(x)
             else:
                 r.fail(f.key, x, 'an auto-initialiser branch installs something other than a copying constructor result', loc=f.loc(x))
+    # a BytesIO is read as a whole, independent of (and without moving) its position
+    for g in (f, m.funcs.get('bits:Bits._setauto')):
+        if g is None:
+            continue
+        fa = ctx.R.analyse(g, 'Bits')
+        for x in own_walk(g.node):
+            if isinstance(x, ast.Call) and isinstance(x.func, ast.Attribute) and x.func.attr in ('read', 'read1', 'readinto', 'readline'):
+                t = fa.expr_type.get(id(x.func.value), ANY)
+                if 'bytesio' in t or not t:
+                    r.fail(g.key, x, "the initialiser consumes the stream with read(): the bits stored depend on the BytesIO's current position and a "
+                           'second use of the same object gives a different (empty) bitstring', loc=g.loc(x))
+    # a foreign bitarray may be little-endian: the store's bitarray is always built big-endian
+    init = m.funcs.get('bitstore:BitStore.__init__')
+    if init is None:
+        raise AnalysisError('anchor vanished: BitStore.__init__')
+    for x in own_walk(init.node):
+        if isinstance(x, ast.Assign) and ast.unparse(x.targets[0]) == 'self._bitarray' and isinstance(x.value, ast.Call):
+            kw = {k.arg: ast.unparse(k.value) for k in x.value.keywords}
+            if kw.get('endian') not in ("'big'", '"big"'):
+                r.fail(init.key, x, "BitStore keeps the endianness of a bitarray it is given: a little-endian bitarray with the same bit sequence gives "
+                       'different tobytes(), integer and hash results than the same bits from any other route', loc=init.loc(x),
+                       extra={'props': ['C04', 'C08', 'C13', 'C17', 'C02']})
+            else:
+                r.ok(x)
     for fk in ('bits:Bits._setbytes', 'bits:Bits._setbytes_with_truncation', 'bits:Bits._setbitarray'):
         g = m.funcs.get(fk)
         if g is None:
@@ -240,6 +264,12 @@ def rule_A6(ctx):
                 for e in ([v.body, v.orelse] if isinstance(v, ast.IfExp) else [v]):
                     t = fa.expr_type.get(id(e), ANY)
                     internal = False
+                    if isinstance(e, ast.Name) and e.id not in f.params():
+                        # a local that is nothing but an alias of an internal buffer
+                        vals = [y.value for y in own_walk(f.node) if isinstance(y, ast.Assign) and len(y.targets) == 1
+                                and isinstance(y.targets[0], ast.Name) and y.targets[0].id == e.id]
+                        if vals and all(isinstance(v2, ast.Attribute) and v2.attr in ('_bitarray', '_bitstore') for v2 in vals):
+                            e = vals[0]
                     if isinstance(e, ast.Attribute) and e.attr in ('_bitarray', '_bitstore'):
                         # whose? a store freshly produced by a copying call is fine
                         base = e.value
